@@ -233,6 +233,8 @@ def src(n, ind=1):
             return f"Option.{n.variant}" + (f"({', '.join(src(a, ind) for a in n.args)})" if n.args else "")
         if n.ty[0] == "verdict":
             return f"Verdict.{n.variant}" + (f"({', '.join(src(a, ind) for a in n.args)})" if n.args else "")
+        if n.ty[0] == "result":
+            return f"Result.{n.variant}" + (f"({', '.join(src(a, ind) for a in n.args)})" if n.args else "")
         return f"{n.ty[1]}.{n.variant}" + (f"({', '.join(src(a, ind) for a in n.args)})" if n.args else "")
     if k == "match":
         s = f"match {src(n.e, ind)} {{\n"
@@ -728,6 +730,10 @@ class Ref:
         if name.startswith("msub_"):
             self.trace.append((name, args))
             return args[0] - args[1]
+        if name == "after_zst":
+            vals = [a for a in args if a is not None]        # the zero-sized argument has no value
+            self.trace.append((name, vals))
+            return vals[0]
         if name in ("after_unit", "around_unit"):
             vals = [a for a in args if a is not None]        # the unit argument has no value
             self.trace.append((name, vals))
@@ -760,6 +766,8 @@ def sym_value(ty, name, prog=None):
         return z3.FP(name, FLOATS[ty]), cons
     if ty == "bool":
         return z3.Bool(name), cons
+    if ty == "Zst":
+        return None, cons          # zero-sized registered type: no value
     if ty == "char":
         c = z3.BitVec(name, 32)
         cons.append(z3.Or(z3.ULT(c, 0xD800), z3.And(z3.UGT(c, 0xDFFF), z3.ULE(c, 0x10FFFF))))
